@@ -269,9 +269,9 @@ def minimise_record(eng, rec, res, try_many, deadline):
                 r["faults"] = [f for f in r["faults"] if f["op"] <= k]
         return r
 
-    if "ops" not in best:
-        return best, bres
-    best = truncate(best, bres)
+    has_ops = "ops" in best
+    if has_ops:
+        best = truncate(best, bres)
 
     def drop_ops(r, idxs):
         idxs = set(idxs)
@@ -284,7 +284,7 @@ def minimise_record(eng, rec, res, try_many, deadline):
         return c
 
     n = 2
-    while time.monotonic() < deadline:
+    while has_ops and time.monotonic() < deadline:
         L = len(best["ops"]) - 1  # never drop the last (failing) op
         if L <= 0:
             break
@@ -322,7 +322,8 @@ def minimise_record(eng, rec, res, try_many, deadline):
                 hit = try_many(cands[k:k + 48])
                 if hit is not None:
                     best, bres = hit
-                    best = truncate(best, bres)
+                    if has_ops:
+                        best = truncate(best, bres)
                     progress = True
                     break
     return best, bres
